@@ -245,7 +245,7 @@ class HamiltonianChain(MarkovChain):
         :return: \
             Samples for the parameter specified by ``index`` as a ``numpy.ndarray``.
         """
-        return array([v[index] for v in self.theta[burn::thin]]).squeeze()
+        return array([v[index] for v in self.theta[burn::thin]])
 
     def plot_diagnostics(self, show=True, filename=None, burn=None):
         """
